@@ -70,60 +70,9 @@ def snap_tp_reject(m: float) -> bool:
     return verdict(r is None, nontrivial=True, sample=lambda: {"m": m, "snapped": r})
 
 
-def snap_lt_sound(m: float) -> bool:
-    """
-    pre: 0.0 < m < 64.0
-    post: _
-    """
-    if skip(locals()):
-        return True
-    lo, hi = shard(64)
-    if not (float(lo) <= m < float(hi)):
-        return True
-    r = dbi._validate_measurement(m, "lt")
-    if r is None:
-        return verdict(True, nontrivial=False)
-    # r is an integer, nearest to m, and m lies within 5% of it
-    ok = r == float(int(r)) and -0.5 <= r - m <= 0.5 and 0.95 * r * (1 - EPS) <= m <= 1.05 * r * (1 + EPS)
-    return verdict(ok, nontrivial=True, sample=lambda: {"m": m, "snapped": r})
-
-
-def snap_lt_complete(m: float, n: int) -> bool:
-    """
-    pre: 1 <= n <= 63
-    pre: 0.0 < m < 64.0
-    post: _
-    """
-    if skip(locals()):
-        return True
-    lo, hi = shard(63)
-    if not (lo <= n - 1 < hi):
-        return True
-    n = pick(n - 1, 63) + 1
-    if not (0.95 * n * (1 + EPS) <= m <= 1.05 * n * (1 - EPS)):
-        return True
-    r = dbi._validate_measurement(m, "lt")
-    return verdict(r is not None and -0.5 <= r - m <= 0.5, nontrivial=True, sample=lambda: {"m": m, "n": n, "snapped": r})
-
-
-def snap_lt_reject(m: float) -> bool:
-    """
-    pre: 0.0 < m < 64.0
-    post: _
-    """
-    if skip(locals()):
-        return True
-    lo, hi = shard(64)
-    if not (float(lo) <= m < float(hi)):
-        return True
-    r = dbi._validate_measurement(m, "lt")
-    if r is not None:
-        return verdict(True, nontrivial=False)
-    # rejected: must not be within 5% of an adjacent integer >= 1 (slightly narrowed window)
-    import math
-    lo, hi = float(math.floor(m)), float(math.ceil(m))
-    inside = (lo >= 1 and m <= 1.05 * lo * (1 - EPS)) or (hi >= 1 and m >= 0.95 * hi * (1 + EPS))
-    return verdict(not inside, nontrivial=True, sample=lambda: {"m": m})
+# The "lt" branch (math.floor / math.ceil / round on a symbolic double) is not decided by CrossHair's
+# IEEE float model within any budget tried (16 shards x 1800 s: all inconclusive, path tree not
+# exhausted), so it is covered by the E2 encoding only (e2_lt_* cells below).
 
 
 # ---- E2: the same function translated from its AST into z3 floating-point terms -----------------
@@ -168,7 +117,7 @@ def _fpc(z3, x):
     return z3.FPVal(x, F64)
 
 
-def _e2_run(mode, what, budget):
+def _e2_run(mode, what, budget, deep=False):
     import time
     from vp.fpsym import solve, Unsupported, RNE
     t0 = time.time()
@@ -181,6 +130,8 @@ def _e2_run(mode, what, budget):
         return {"status": "inconclusive", "message": "E2 translator does not support the current source: %s" % e}
     hi = 2.0 if mode == "tp" else 64.0
     dom = [z3.fpGT(m, _fpc(z3, 0.0)), z3.fpLT(m, _fpc(z3, hi))]
+    if deep:
+        return _e2_deep(z3, m, rets, what, budget, t0)
     queries, tsolve = 0, 0.0
     mul = lambda a, b: z3.fpMul(RNE, a, b)
     goals = []   # (description, constraints)
@@ -232,6 +183,61 @@ def _e2_run(mode, what, budget):
     api.STATS["nontrivial"] += queries
     api.SAMPLES.append({"engine": "E2 z3 QF_FP", "mode": mode, "obligation": what, "queries": queries, "paths_of_function": len(rets)})
     return {"status": "confirmed", "paths": queries}
+
+
+DEEP_TOP = 13      # sound: 0 < m < 2**13, one query per binade;  complete: every integral n <= 2**52 (symbolic)
+
+
+def _e2_deep(z3, m, rets, what, budget, t0):
+    import time
+    from vp.fpsym import solve, RNE, F64
+    from vp import api
+    mul = lambda a, b: z3.fpMul(RNE, a, b)
+    goals = []
+    if what == "sound":
+        doms = [("0 < m < 2**-4", [z3.fpGT(m, _fpc(z3, 0.0)), z3.fpLT(m, _fpc(z3, 2.0 ** -4))])]
+        doms += [("2**%d <= m < 2**%d" % (k, k + 1), [z3.fpGEQ(m, _fpc(z3, 2.0 ** k)), z3.fpLT(m, _fpc(z3, 2.0 ** (k + 1)))]) for k in range(-4, DEEP_TOP)]
+        for name, dom in doms:
+            for pc, r in rets:
+                if r is None:
+                    continue
+                good = z3.And(z3.fpEQ(z3.fpRoundToIntegral(RNE, r), r),
+                              z3.fpLEQ(z3.fpAbs(z3.fpSub(RNE, r, m)), _fpc(z3, 0.5)),
+                              z3.fpLEQ(mul(mul(_fpc(z3, 0.95), r), _fpc(z3, 1 - EPS)), m),
+                              z3.fpLEQ(m, mul(mul(_fpc(z3, 1.05), r), _fpc(z3, 1 + EPS))))
+                goals.append(("returned value not justified, " + name, dom + [pc, z3.Not(good)]))
+    else:
+        n = z3.FP("n", F64)
+        for pc, r in rets:
+            if r is not None:
+                continue
+            w = z3.And(z3.fpEQ(z3.fpRoundToIntegral(RNE, n), n), z3.fpGEQ(n, _fpc(z3, 1.0)), z3.fpLEQ(n, _fpc(z3, 2.0 ** 52)),
+                       z3.fpLEQ(mul(mul(_fpc(z3, 0.95), n), _fpc(z3, 1 + EPS)), m), z3.fpLEQ(m, mul(mul(_fpc(z3, 1.05), n), _fpc(z3, 1 - EPS))))
+            goals.append(("measurement within 5% of an integer n <= 2**52 rejected", [z3.fpGT(m, _fpc(z3, 0.0)), pc, w]))
+    queries = 0
+    for desc, cons in goals:
+        left = budget - (time.time() - t0)
+        if left < 5:
+            return {"status": "inconclusive", "message": "budget exhausted after %d queries" % queries, "paths": queries}
+        r, val, dt = solve(cons, min(left, 400.0), m)
+        queries += 1
+        if r == "sat":
+            return {"status": "counterexample", "args": [val], "kwargs": {}, "message": "%s: m=%r" % (desc, val), "paths": queries}
+        if r != "unsat":
+            return {"status": "inconclusive", "message": "solver answered %s on: %s" % (r, desc), "paths": queries}
+    api.STATS["reached"] += queries
+    api.STATS["nontrivial"] += queries
+    api.SAMPLES.append({"engine": "E2 z3 QF_FP", "mode": "lt", "obligation": what + " (deep)", "queries": queries, "paths_of_function": len(rets)})
+    return {"status": "confirmed", "paths": queries}
+
+
+def _replay_complete_deep(m):
+    import math
+    r = dbi._validate_measurement(m, "lt")
+    for n in (math.floor(m), math.ceil(m), math.ceil(m / (1.05 * (1 - EPS))), math.floor(m / (0.95 * (1 + EPS)))):
+        if 1 <= n <= 2 ** 52 and 0.95 * n * (1 + EPS) <= m <= 1.05 * n * (1 - EPS):
+            return r is not None
+    return True
 
 
 def _replay_sound(mode):
@@ -480,11 +486,10 @@ CELLS = {
     "snap_tp_sound": {"fn": snap_tp_sound, "ieee": True, "bound": "all IEEE doubles 0 < m < 2: a snapped value is round(1/n,5) for an n in 1..10 whose 5% window contains m", "budget": {"quick": 170, "thorough": 900}},
     "snap_tp_complete": {"fn": snap_tp_complete, "ieee": True, "bound": "all doubles inside a 5% window of 1/n, n = 1..10, are snapped to round(1/n,5)", "budget": {"quick": 170, "thorough": 900}},
     "snap_tp_reject": {"fn": snap_tp_reject, "ieee": True, "bound": "all doubles 0 < m < 2 outside every window are recorded as missing", "budget": {"quick": 170, "thorough": 900}},
-    "snap_lt_sound": {"fn": snap_lt_sound, "ieee": True, "tiers": ("thorough",), "bound": "all IEEE doubles 0 < m < 64: a snapped latency is the nearest integer and m is within 5% of it", "budget": {"quick": 170, "thorough": 1200}, "shards": 16},
-    "snap_lt_complete": {"fn": snap_lt_complete, "ieee": True, "tiers": ("thorough",), "bound": "all doubles within 5% of an integer 1..63 are snapped", "budget": {"thorough": 1800}, "shards": 16},
-    "snap_lt_reject": {"fn": snap_lt_reject, "ieee": True, "tiers": ("thorough",), "bound": "rejected doubles are not within 5% of an adjacent integer", "budget": {"thorough": 1800}, "shards": 16},
     "e2_lt_sound": {"kind": "smt", "fn": lambda b: _e2_run("lt", "sound", b), "replay": _replay_sound("lt"), "bound": "E2: AST -> z3 QF_FP; all doubles 0 < m < 64; returned latency is integral, within 0.5 of m and m within 5% of it", "budget": {"quick": 170, "thorough": 900}},
     "e2_lt_complete": {"kind": "smt", "fn": lambda b: _e2_run("lt", "complete", b), "replay": _replay_complete("lt"), "bound": "E2: all doubles within 5% of an integer n = 1..63 are snapped (63 queries)", "budget": {"quick": 170, "thorough": 900}},
+    "e2_lt_sound_deep": {"kind": "smt", "tiers": ("thorough",), "fn": lambda b: _e2_run("lt", "sound", b, deep=True), "replay": _replay_sound("lt"), "bound": "E2: all doubles 0 < m < 8192, one QF_FP query per binade (2**-4 .. 2**13) and function path", "budget": {"thorough": 1500}},
+    "e2_lt_complete_deep": {"kind": "smt", "tiers": ("thorough",), "fn": lambda b: _e2_run("lt", "complete", b, deep=True), "replay": _replay_complete_deep, "bound": "E2: n is a symbolic integral double 1 <= n <= 2**52: every double within 5% of n is snapped", "budget": {"thorough": 900}},
     "e2_tp_sound": {"kind": "smt", "fn": lambda b: _e2_run("tp", "sound", b), "replay": _replay_sound("tp"), "bound": "E2 cross-check of snap_tp_sound on a second encoding", "budget": {"quick": 170, "thorough": 900}},
     "e2_tp_complete": {"kind": "smt", "fn": lambda b: _e2_run("tp", "complete", b), "replay": _replay_complete("tp"), "bound": "E2 cross-check of snap_tp_complete", "budget": {"quick": 170, "thorough": 900}},
     "decode_x86": {"fn": decode_x86, "bound": "operand code = symbolic string, len <= 5, restricted to the documented x86 codes (r, x, y, z, i, m + distinct letters of b,o,i,s in any order)", "budget": {"quick": 170, "thorough": 600}},
